@@ -20,52 +20,11 @@ def _alarm(signum, frame):
     raise CaseTimeout("case timed out")
 
 
-def enc(x):
-    """exact encoding of numbers / arrays"""
-    if isinstance(x, (bool, numpy.bool_)):
-        return bool(x)
-    if isinstance(x, (int, numpy.integer)):
-        return str(int(x))
-    if isinstance(x, (float, numpy.floating)):
-        return float(x).hex()
-    if isinstance(x, (complex, numpy.complexfloating)):
-        return ["c", float(x.real).hex(), float(x.imag).hex()]
-    if isinstance(x, numpy.ndarray):
-        return [enc(v) for v in x.tolist()] if x.ndim else enc(x.item())
-    if isinstance(x, (list, tuple)):
-        return [enc(v) for v in x]
-    if x is None:
-        return None
-    if isinstance(x, str):
-        return "s:" + x
-    if isinstance(x, dict):
-        return {k: enc(v) for k, v in x.items()}
-    return "repr:" + repr(x)[:200]
-
-
-def dec(x):
-    """hex string / int string / ['c', re, im] / list -> Python number(s)"""
-    if isinstance(x, list):
-        if len(x) == 3 and x[0] == "c":
-            return complex(float.fromhex(x[1]), float.fromhex(x[2]))
-        return [dec(v) for v in x]
-    if isinstance(x, str):
-        if "x" in x or "inf" in x or "nan" in x:
-            return float.fromhex(x)
-        return int(x)
-    return x
-
-
-def arr(x):
-    return numpy.array(dec(x))
+from impl_codec import enc, dec, arr, enc_lpoly, enc_lalg  # noqa
 
 
 # ---------------------------------------------------------------------------------------
 # LPoly / LAlg expression histories (C08, C09)
-
-def enc_lpoly(p):
-    return {"dmin": int(p.dmin), "isz": bool(p.iszero), "coefs": enc(numpy.array(p.coefs))}
-
 
 def ev_pexpr(e):
     from pyqsp.LPoly import LPoly
@@ -152,10 +111,6 @@ def h_pexpr(c):
         q.round_zeros(dec(c["round_zeros"]))
         r["rounded"] = enc(numpy.array(q.coefs))
     return r
-
-
-def enc_lalg(g):
-    return {"I": enc_lpoly(g.IPoly), "X": enc_lpoly(g.XPoly)}
 
 
 def h_gexpr(c):
